@@ -506,6 +506,14 @@ func TestC09(t *testing.T) {
 				probe := &Node{K: KRoot, Next: appendChain(other, &Node{K: KIdx, Subs: []Sub{{From: &Node{K: KInt, I: 0}}}, Next: step})}
 				c.A = &Node{K: KInt, I: 0, Next: &Node{K: KFilter, A: &Node{K: KExists, A: probe}}}
 			}
+			if g.chance(25, "failA") {
+				// index 0 guarded by a predicate whose operand contains a nested subscript that
+				// fails under suppression: (E[<failing subscript>] == 1) is unknown is true
+				other, _ := GenWalk(rt, d, 2, strict, "fo")
+				bad := []*Node{{K: KRoot, Next: &Node{K: KKey, S: "nosuchkey"}}, {K: KStr, S: "x"}, {K: KNum, F: 1e10}, {K: KRoot, Next: &Node{K: KAnyArr}}}[g.n(4, "fbad")]
+				probe := &Node{K: KRoot, Next: appendChain(other, &Node{K: KIdx, Subs: []Sub{{From: bad}}})}
+				c.A = &Node{K: KInt, I: 0, Next: &Node{K: KFilter, A: &Node{K: KIsUnknown, A: &Node{K: KBin, S: "==", A: probe, B: &Node{K: KInt, I: 1}}}}}
+			}
 			c.B = []*Node{{K: KLast}, {K: KBin, S: "-", A: &Node{K: KLast}, B: &Node{K: KInt, I: 1}}, {K: KInt, I: 0}}[g.n(3, "b")]
 		default:
 			c.Kind = "root"
